@@ -182,6 +182,61 @@ func rulesC14(w *World, r *Report) {
 		// R3 / R4 from the decoder's problems
 		n3 := reportCodecProblems(w, r, "C14", d, map[string]bool{"R3": true})
 		n4 := reportCodecProblems(w, r, "C14", d, map[string]bool{"R4": true})
+		// the remainder handed back is the caller's buffer advanced: nowhere on its way is it cut at an upper bound
+		{
+			bad := ""
+			idx := errResultIndex(d.fn)
+			seen := map[ssa.Value]bool{}
+			var walk func(v ssa.Value)
+			walk = func(v ssa.Value) {
+				if seen[v] || bad != "" {
+					return
+				}
+				seen[v] = true
+				switch t := v.(type) {
+				case *ssa.Parameter:
+				case *ssa.Phi:
+					for _, e := range t.Edges {
+						walk(e)
+					}
+				case *ssa.Slice:
+					if t.High != nil || t.Max != nil {
+						bad = "cut at an upper bound at " + w.instrPos(t)
+						return
+					}
+					walk(t.X)
+				case *ssa.Extract:
+					if c, ok := t.Tuple.(*ssa.Call); ok {
+						if sc := c.Common().StaticCallee(); sc != nil && sc.Name() == "TakeFrom" && len(c.Common().Args) == 2 {
+							walk(c.Common().Args[1])
+							return
+						}
+					}
+					bad = "not derived from the source buffer (" + shortExpr(newExprCtx(w).expr(v)) + ")"
+				case *ssa.ChangeType:
+					walk(t.X)
+				case *ssa.Const:
+					if !t.IsNil() {
+						bad = "a constant"
+					}
+				default:
+					bad = "not derived from the source buffer (" + shortExpr(newExprCtx(w).expr(v)) + ")"
+				}
+			}
+			nRet := 0
+			for _, ret := range returnsOf(d.fn) {
+				if idx < 0 || len(ret.Results) != 2 {
+					continue
+				}
+				// failure returns hand back no remainder; `return x.TakeFrom(src)` passes both results on
+				if c, isK := ret.Results[0].(*ssa.Const); isK && c.IsNil() {
+					continue
+				}
+				nRet++
+				walk(ret.Results[0])
+			}
+			r.Check(bad == "" && nRet > 0, "C14.R3", typ+":remainder", w.pos(d.fn.Pos()), fmt.Sprintf("%d success returns hand back the source buffer advanced, never shortened at its end", nRet), typ+".TakeFrom: the remainder it returns is "+bad+": the bytes that follow this message are lost to the caller, so concatenated messages no longer decode in sequence")
+		}
 		if n3 == 0 {
 			r.OK("C14.R3", typ+":consumption", w.pos(d.fn.Pos()), fmt.Sprintf("%d reads and %d nested decoders within guarded length; success returns consume %s", len(d.reads), len(d.nested), d.size))
 		}
